@@ -740,3 +740,43 @@ def rule_partial_leak(u, rep, scope_files, crate="epserde", rule="LEAK-PARTIAL")
                         % (b.n, ty_str(writes[0][1]), b.crate.span(exits[0]["sp"])), b.crate.span(writes[0][0]["sp"]))
     rep.count("uninit_fill_loops", n)
     return n
+
+
+def rule_double_cleanup(u, rep, scope_files, crate="epserde", rule="DOUBLE-CLEANUP"):
+    """A function that drops a partially built prefix by hand (drop_in_place) must not also hold a guard value whose
+    own Drop impl releases the same kind of prefix: on the failing path both run and the items are dropped twice.
+    (Either mechanism alone is fine.)"""
+    guards_ = set()
+    for im in u.impls:
+        if im.trait and im.trait.endswith("::Drop") and im.trait.startswith("core::ops") and im.crate.name == crate and im.self_ty[0] == "adt":
+            bid = im.item_id("drop")
+            b = u.body(bid) if bid else None
+            if b is None or b.thir is None:
+                continue
+            acc = []
+            rules_err.calls_in(b.crate, b.thir["root"], acc)
+            if any(dj.get("name") in ("drop_in_place", "from_raw_parts", "from_raw", "dealloc") for dj, _r, _e in acc):
+                guards_.add(im.self_ty[1])
+    n = 0
+    for b in u.bodies.values():
+        if b.thir is None or b.d.get("krate") != crate or not rules_err.in_scope(b, scope_files) or b.kind not in ("Fn", "AssocFn"):
+            continue
+        acc = []
+        rules_err.calls_in(b.crate, b.thir["root"], acc)
+        manual = [e for dj, _r, e in acc if dj.get("name") == "drop_in_place"]
+        if not manual:
+            continue
+        im = u.impl_of_item(b.id)
+        if im is not None and im.trait and im.trait.endswith("::Drop"):
+            continue
+        n += 1
+        built = []
+        rules_err.adts_built_in(b.crate, b.thir["root"], built)
+        held = [aid for (aid, _v, _e) in built if aid in guards_]
+        ok = not held
+        rep.oblige(ok)
+        if not ok:
+            rep.add(rule, b.n, "`%s` drops a written prefix by hand (drop_in_place) and also holds a `%s`, whose Drop impl releases items too: on the failing path both run (double drop)" % (b.n, held[0].split("::")[-1]), b.crate.span(manual[0]["sp"]))
+    rep.count("manual_cleanup_functions", n)
+    rep.count("cleanup_guard_types", len(guards_))
+    return n
